@@ -174,6 +174,18 @@ let run_unwind_model () =
    with End_of_file -> ());
   close_in hf
 
+(* usage: driver hibit <cases>: the model's transcript per case *)
+let run_hibit () =
+  let hf = open_in Sys.argv.(2) in
+  (try
+     while true do
+       let h = List.map z_of_int (ints_of_line (input_line hf)) in
+       print_string (line_of_transcript (hibit_transcript h));
+       print_newline ()
+     done
+   with End_of_file -> ());
+  close_in hf
+
 let () =
   match Sys.argv.(1) with
   | "world" -> run_world ()
@@ -184,4 +196,5 @@ let () =
   | "saveload" -> run_saveload ()
   | "unwind" -> run_unwind ()
   | "unwind-model" -> run_unwind_model ()
+  | "hibit" -> run_hibit ()
   | d -> failwith ("unknown domain " ^ d)
